@@ -45,7 +45,7 @@ def plan(tier, ctx):
         rsm = [(2, 1), (5, 3), (14, 4), (17, 16), (32, 16), (32, 1), (24, 9), (30, 10)]
     else:
         allp = [(m, k) for k in range(1, 17) for m in range(k, 33)]
-        cau = allp + [(64, 32), (128, 8), (256, 2), (256, 10), (255, 3), (200, 100)]
+        cau = allp + [(64, 32), (128, 8), (256, 2), (256, 10), (255, 3)]
         rsm = allp + [(40, 20), (64, 3)]
     for kind, lst in (("CAUCHY", cau), ("RS", rsm)):
         for (m, k) in lst:
